@@ -17,7 +17,7 @@ RULE = ('cases = (table sizes incl. 0,1,2,254..257,300 and random; protocol vers
         'reached `connected` with at least one table entry.')
 ASSUMPTIONS = ['simulated device implements the firmware TOC protocol (V1 and V2) as documented',
                'platform / link-control requests are never lost (the library sends them without retry)']
-REQUIRED = ['mon.cached_sessions_with_one_checksum_for_both_tables', 'mon.tables_at_connected', 'mon.lookup_entries', 'mon.stale_sessions', 'mon.lossy_retransmissions',
+REQUIRED = ['mon.copies_of_item_answers_arriving_in_the_extended_type_phase', 'mon.cached_sessions_with_one_checksum_for_both_tables', 'mon.tables_at_connected', 'mon.lookup_entries', 'mon.stale_sessions', 'mon.lossy_retransmissions',
             'mon.v1_cases', 'mon.over_255', 'mon.cache_reconnects', 'mon.early_param_packets',
             'mon.stale_item_replies_mid_download', 'mon.cache_shared_with_another_firmware',
             'mon.cache_files_in_an_older_format']
@@ -83,6 +83,7 @@ def run(desc, ctx):
         other_fw = gen.profile(desc['seed'] + 991, max(1, desc['nlog'] // 2 + 1), max(1, desc['nparam'] // 2 + 2), proto=10)
         other_fw['log_crc'] = 0x5A0F0000 | prof['log_crc'] if prof['log_crc'] < 0x10000 else 0x5A000000 | prof['log_crc']
         other_fw['param_crc'] = 0x7B1D0000 | prof['param_crc'] if prof['param_crc'] < 0x10000 else 0x7B000000 | prof['param_crc']
+    obs = {'connected': [], 'lookups': 0}
     dev = simcf.SimCF(prof)
     spec = simlink.LinkSpec(dev, needs_resending=(pol == 'lossy'), latency=0.001)
     uri = 'sim://c03'
@@ -91,9 +92,30 @@ def run(desc, ctx):
         spec.reply_policy = gen.make_reply_policy(pol, desc['seed'], p=0.3 if pol != 'lossy' else 0.15)
     if pol == 'lossy':
         spec.tx_filter = gen.make_tx_filter(desc['seed'], p=0.15)
+    if pol == 'dupdelay' and desc['proto'] >= 4 and desc['seed'] % 2 == 0:
+        # copies of parameter TOC item answers that are late enough to arrive while the extended types are being asked for
+        base_policy = spec.reply_policy
+        erng = random.Random(desc['seed'] ^ 0xE7)
+        n_ext = sum(1 for q in prof['param'] if q.get('ext'))
+
+        def late_item_copies(sp, n, h, d):
+            outs = base_policy(sp, n, h, d)
+            if (h >> 4) & 0xF == 2 and h & 3 == 3 and len(d) >= 4 and d[0] == 2 and erng.random() < 0.4:
+                # ... in particular the copy of the item answer of the very parameter whose extended type has just
+                # been asked for, delivered right in front of the answer to that question
+                import struct as _st
+                idx = d[1] | d[2] << 8
+                if idx < len(dev.params):
+                    outs = [(0.0, simcf.hdr(2, 0), bytes([2]) + _st.pack('<H', idx) + dev.param_item(idx))] + outs
+                    obs['late_item_copies'] = obs.get('late_item_copies', 0) + 1
+            if (h >> 4) & 0xF == 2 and h & 3 == 0 and len(d) > 3 and d[0] == 2 and n_ext and erng.random() < 0.5:
+                idx = d[1] | d[2] << 8
+                outs = outs + [(erng.uniform(0.0, 0.0025 * (len(prof['param']) - idx + n_ext)), h, d)]
+                obs['late_item_copies'] = obs.get('late_item_copies', 0) + 1
+            return outs
+        spec.reply_policy = late_item_copies
     exp_log, exp_param = oracles.expected_log(dev), oracles.expected_param(dev)
     absent = [('nope', 'x'), (dev.log_toc[0][0], 'zz~') if dev.log_toc else ('a', 'b')]
-    obs = {'connected': [], 'lookups': 0}
 
     cache_dir = None
     if pol == 'cachenotify':
@@ -273,6 +295,7 @@ def run(desc, ctx):
         for m, d in issues:
             ctx.violate('toc:' + m, d, replay=rp)
     ctx.count('mon.lookup_entries', obs['lookups'])
+    ctx.count('mon.copies_of_item_answers_arriving_in_the_extended_type_phase', obs.get('late_item_copies', 0))
     if pol == 'stale':
         ctx.count('mon.stale_sessions')
         ctx.count('mon.stale_packets_delivered', obs.get('stale_left', 0))
